@@ -976,5 +976,27 @@ pub fn all() -> Vec<Witness> {
             case: case_of(main, vec![], b"", vec![]),
         });
     }
+    // ---- characters delivered before a device refused the rest were not counted ----
+    {
+        let mut b = B(0);
+        let mut main = vec![
+            b.s(StmtKind::OnErrorGoto("H1".into())),
+            b.print(Dev::Screen, vec![e(lit("ABCDEFGH")), PItem::Semi]),
+            b.print(Dev::Screen, vec![PItem::Comma, e(lit("y"))]),
+        ];
+        b.handler(&mut main);
+        let mut short = fault(2, "write", "screen", "short_write", 50);
+        short.fault.ordinal = 0;
+        let mut hard = fault(2, "write", "screen", "err_storage_full", 0);
+        hard.fault.ordinal = 1;
+        out.push(Witness {
+            name: "fixed-column-after-short-write-then-error",
+            property: "C16",
+            class: "Layout",
+            key: "",
+            what: "PRINT \"ABCDEFGH\"; cut short by the device (ABCD went out, the rest was refused with an error), RESUME NEXT, PRINT , \"y\": the comma padded from column 0 instead of column 4 (the characters that did go out were not counted)",
+            case: case_of(main, vec![], b"", vec![short, hard]),
+        });
+    }
     out
 }
